@@ -101,4 +101,31 @@ theorem C07_no_alias (s s' : State) (imm : BitVec 32) (h : Interp.callLocal s im
     rw [Nat.mod_eq_of_lt (by omega)]; omega
   · rw [BitVec.le_def, BitVec.toNat_ofNat, Nat.mod_eq_of_lt (by omega)]; exact hu
 
+/-! ### non-vacuity: `Ex7.prog` is
+    `0: mov r6,5  1: call 3  2: exit  3: mov r6,7  4: call 6  5: exit  6: mov r7,9  7: exit`;
+    `Ex7.s` is the state in which the call at pc 1 is executed (r6 = 5, r7 = 1, r10 = 0x3200) -/
+
+-- the hypotheses of `C07_balanced` hold for the outer call (n = 4: mov, nested call, mov, nested exit);
+-- the callee overwrote r6 (7), the nested callee r7 (9, already put back to 1 by the nested return)
+example : ∃ s1 s2 s3, R10ReadOnly Ex7.env.prog ∧ Interp.callLocal Ex7.s 1 = .next s1 ∧
+    stepsAbove Ex7.env Ex7.s.depth 4 s1 = some s2 ∧ Interp.step Ex7.env s2 = .next s3 ∧ s3.depth = Ex7.s.depth ∧
+    s1.reg[10]? = some 0x3100#64 ∧ s2.reg[6]? = some 7#64 ∧ s2.reg[7]? = some 1#64 ∧
+    s3.reg[6]? = some 5#64 ∧ s3.reg[7]? = some 1#64 ∧ s3.reg[10]? = some 0x3200#64 ∧ s3.pc = 2 :=
+  ⟨_, _, _, Ex7.r10ReadOnly, rfl, rfl, rfl, rfl, by decide +kernel, by decide +kernel, by decide +kernel,
+    by decide +kernel, by decide +kernel, by decide +kernel, by decide +kernel⟩
+-- and the theorem applies to it
+example (s1 s2 s3 : State) (h1 : Interp.callLocal Ex7.s 1 = .next s1)
+    (h2 : stepsAbove Ex7.env Ex7.s.depth 4 s1 = some s2) (h3 : Interp.step Ex7.env s2 = .next s3)
+    (h4 : s3.depth = Ex7.s.depth) : s3.reg[6]? = some 5#64 ∧ s3.reg[10]? = some 0x3200#64 ∧ s3.pc = 2 :=
+  have h := C07_balanced Ex7.env Ex7.s s1 s2 s3 1 4 Ex7.r10ReadOnly h1 h2 h3 h4
+  ⟨h.1 6 (by decide) (by decide), h.1 10 (by decide) (by decide), h.2.1⟩
+-- a ninth nested call
+example : Interp.callLocal { Ex7.s with frames := List.replicate 8 default } 1 =
+    .err .callDepth { Ex7.s with frames := List.replicate 8 default } :=
+  C07_depth_limit _ _ (by decide)
+-- the callee's r10 is 0x3100 = 0x3200 − 256
+example : ∃ s', Interp.callLocal Ex7.s 1 = .next s' ∧ s'.reg[10]? = some 0x3100#64 ∧
+    (0x3100#64).toNat + (Ex7.s.usage[Ex7.s.depth]?).getD 0 = (0x3200#64).toNat :=
+  ⟨_, rfl, by decide +kernel, by decide +kernel⟩
+
 end Rbpf
